@@ -56,6 +56,18 @@ EDITS = {
     "mesh-occ-flag-instead-of-for-else": ("permuta/patterns/meshpatt.py",
         "                if (x, y) in self.shading:\n                    break\n            else:\n                yield tuple(candidate_indices)",
         "                if (x, y) in self.shading:\n                    ok = False\n                    break\n            else:\n                ok = True\n            if ok:\n                yield tuple(candidate_indices)", ["C03"]),
+    "major-index-other-spelling": ("permuta/patterns/perm.py",
+        "        return sum(1 + desc for desc in self.descents())",
+        "        return sum(d + 1 for d in self.descent_set())", ["C11"]),
+    "depth-list-comprehension": ("permuta/patterns/perm.py",
+        "        return sum(val - idx for idx, val in enumerate(self) if val > idx)",
+        "        return sum([v - k for k, v in enumerate(self) if k < v])", ["C11"]),
+    "max-dec-run-weaker-break": ("permuta/patterns/perm.py",
+        "            if next_val < max_not_included:\n                break",
+        "            if next_val <= max_not_included:\n                break", ["C11"]),
+    "longestruns-other-comparison": ("permuta/patterns/perm.py",
+        "            if prev < curr:\n                if idx - cur + 2 > maxi:",
+        "            if curr > prev:\n                if idx - cur + 2 > maxi:", ["C11"]),
     "inversions-swap-loops-names": ("permuta/patterns/perm.py",
         "        for i, prev in enumerate(self):\n            for j in range(i + 1, n):\n                if prev > self[j]:\n                    yield i, j",
         "        for i, left in enumerate(self):\n            for j in range(i + 1, n):\n                if left > self[j]:\n                    yield (i, j)", ["C11"]),
